@@ -6,9 +6,10 @@
    Done is not written here: it is computed from the source-order event lists
    of the two handlers, regenerated into Gen/C24.v on every run (tie T).
    Executable definitions only. *)
-From Coq Require Import List Bool Arith String.
+From Coq Require Import List Bool Arith String Ascii ZArith.
 Import ListNotations.
 From Verif Require Import Lib.Corr Gen.C24.
+Open Scope nat_scope.
 
 Inductive ep := Http | Otlp.
 
@@ -41,6 +42,24 @@ Definition safe_order (evs : list ev) : bool :=
 
 Definition done_on_failed_start (e : ep) : bool :=
   negb (safe_order (match e with Http => receiveHTTP_events | Otlp => receiveOTLPHTTP_events end)).
+
+(* tie T: Start and the deferred Done are called on the SAME gate value: the
+   expression they are called on is one plain identifier (no call, no field
+   access re-evaluated at each use) that is assigned exactly once in the handler *)
+Fixpoint plain_ident (s : string) : bool :=
+  match s with
+  | EmptyString => true
+  | String c r =>
+      negb (Ascii.eqb c "("%char) && negb (Ascii.eqb c ")"%char) && negb (Ascii.eqb c "."%char) && plain_ident r
+  end.
+Definition same_binding (start_recv done_recv : string) (bindings : Z) : bool :=
+  String.eqb start_recv done_recv && plain_ident start_recv
+  && negb (String.eqb start_recv "") && Z.eqb bindings 1%Z.
+Definition same_gate (e : ep) : bool :=
+  match e with
+  | Http => same_binding receiveHTTP_start_receiver receiveHTTP_done_receiver receiveHTTP_gate_bindings
+  | Otlp => same_binding receiveOTLPHTTP_start_receiver receiveOTLPHTTP_done_receiver receiveOTLPHTTP_gate_bindings
+  end.
 
 (* ---- the LTS ---- *)
 Inductive label :=
@@ -115,59 +134,136 @@ Fixpoint run (dofs : ep -> bool) (max : nat) (s : state) (ls : list label) : opt
   | l :: r => match step dofs max s l with Some s' => run dofs max s' r | None => None end
   end.
 
+(* ---- several gates: reloads of the limits configuration ----
+   Limiter.loadConfig installs a FRESH gate (of the configured capacity) on
+   every reload; requests that entered Start on an older gate stay queued on /
+   admitted by that gate. A request's deferred Done goes to the gate it started
+   on when the handler keeps the gate in one binding ([same_gate]); when the
+   handler looks the gate up again, it goes to the newest gate instead. *)
+Definition mstate := list (nat * state).      (* per gate, oldest first: capacity, counters *)
+Definition minit (max : nat) : mstate := [(max, init)].
+
+Inductive mlabel :=
+| MOn (i : nat) (l : label)            (* arrive / admit / cancel / leave on gate i *)
+| MRelease (i : nat) (e : ep)          (* deferred Done of a request that started on gate i *)
+| MReload (max : nat).
+
+Fixpoint upd_gate (i : nat) (f : nat * state -> option (nat * state)) (gs : mstate) : option mstate :=
+  match gs, i with
+  | [], _ => None
+  | g :: r, O => match f g with Some g' => Some (g' :: r) | None => None end
+  | g :: r, S j => match upd_gate j f r with Some r' => Some (g :: r') | None => None end
+  end.
+
+Definition on_gate (dofs : ep -> bool) (l : label) (g : nat * state) : option (nat * state) :=
+  match step dofs (fst g) (snd g) l with Some s' => Some (fst g, s') | None => None end.
+
+(* the request leaves gate i's books; Done itself is applied elsewhere *)
+Definition leave_exiting (g : nat * state) : option (nat * state) :=
+  match exiting (snd g) with
+  | S x => let s := snd g in
+           Some (fst g, mk_state (tokens s) (waiting s) (working s) x (finished s) (cancelled s) (panics s))
+  | O => None
+  end.
+(* gate.Done on a gate, on behalf of a request of another gate: counted as
+   finished (or as a panic) on the gate that is hit *)
+Definition foreign_done (g : nat * state) : option (nat * state) :=
+  let s := snd g in
+  match tokens s with
+  | O => Some (fst g, mk_state 0 (waiting s) (working s) (exiting s) (finished s) (cancelled s) (S (panics s)))
+  | S t => Some (fst g, mk_state t (waiting s) (working s) (exiting s) (S (finished s)) (cancelled s) (panics s))
+  end.
+
+Definition mstep (dofs same : ep -> bool) (gs : mstate) (l : mlabel) : option mstate :=
+  match l with
+  | MOn i LRelease => None                 (* releases carry the endpoint: MRelease *)
+  | MOn i l => upd_gate i (on_gate dofs l) gs
+  | MRelease i e =>
+      if same e then upd_gate i (on_gate dofs LRelease) gs
+      else match upd_gate i leave_exiting gs with
+           | Some gs' => upd_gate (List.length gs' - 1) foreign_done gs'
+           | None => None
+           end
+  | MReload max => Some (gs ++ [(max, init)])
+  end.
+
+Fixpoint mrun (dofs same : ep -> bool) (gs : mstate) (ls : list mlabel) : option mstate :=
+  match ls with
+  | [] => Some gs
+  | l :: r => match mstep dofs same gs l with Some gs' => mrun dofs same gs' r | None => None end
+  end.
+
 (* ---- the schedule controller of the harness, as label sequences ----
    after every operation the harness waits until no queued request can be
-   admitted any more; so each operation is followed by as many LAdmit as fit *)
+   admitted any more; so each operation is followed, on every gate, by as many
+   LAdmit as fit *)
 Inductive op :=
 | OArrive (e : ep)
 | OArriveDead (e : ep)   (* arrives with an already cancelled context and Start chose ctx.Done *)
-| OCancel (e : ep) | OCancelNone
-| OFinish | OFinishNone. (* OFinish also covers a client that gives up inside the write path: the
-                            handler leaves through an error return and its deferred Done runs *)
+| OCancel (e : ep) (i : nat) | OCancelNone
+| OFinish (e : ep) (i : nat) | OFinishNone
+  (* OFinish also covers a client that gives up inside the write path: the
+     handler leaves through an error return and its deferred Done runs *)
+| OReload (max : nat).
 
-Definition admits (max : nat) (s : state) : list label :=
-  repeat LAdmit (Nat.min (waiting s) (max - tokens s)).
+Definition last_gate (gs : mstate) : nat := List.length gs - 1.
 
-Definition op_labels (o : op) : list label :=
+Definition admits_of (i : nat) (g : nat * state) : list mlabel :=
+  repeat (MOn i LAdmit) (Nat.min (waiting (snd g)) (fst g - tokens (snd g))).
+
+Fixpoint all_admits (i : nat) (gs : mstate) : list mlabel :=
+  match gs with
+  | [] => []
+  | g :: r => admits_of i g ++ all_admits (S i) r
+  end.
+
+Definition op_labels (gs : mstate) (o : op) : list mlabel :=
   match o with
-  | OArrive e => [LArrive e]
-  | OArriveDead e => [LArrive e; LCancel e]
-  | OCancel e => [LCancel e]
-  | OFinish => [LFinish; LRelease]
+  | OArrive e => [MOn (last_gate gs) (LArrive e)]
+  | OArriveDead e => [MOn (last_gate gs) (LArrive e); MOn (last_gate gs) (LCancel e)]
+  | OCancel e i => [MOn i (LCancel e)]
+  | OFinish e i => [MOn i LFinish; MRelease i e]
+  | OReload max => [MReload max]
   | OCancelNone | OFinishNone => []
   end.
 
-Definition op_enabled (s : state) (o : op) : bool :=
+Definition op_enabled (gs : mstate) (o : op) : bool :=
   match o with
-  | OCancelNone => Nat.eqb (waiting s) 0
-  | OFinishNone => Nat.eqb (working s) 0
+  | OCancelNone => forallb (fun g => Nat.eqb (waiting (snd g)) 0) gs
+  | OFinishNone => forallb (fun g => Nat.eqb (working (snd g)) 0) gs
   | _ => true
   end.
 
-Definition exec_op (dofs : ep -> bool) (max : nat) (s : state) (o : op) : option state :=
-  if op_enabled s o then
-    match run dofs max s (op_labels o) with
-    | Some s' => run dofs max s' (admits max s')
+Definition exec_op (dofs same : ep -> bool) (gs : mstate) (o : op) : option mstate :=
+  if op_enabled gs o then
+    match mrun dofs same gs (op_labels gs o) with
+    | Some gs' => mrun dofs same gs' (all_admits 0 gs')
     | None => None
     end
   else None.
 
-Definition snapshot := (nat * nat * nat * nat * nat)%type.  (* working, waiting, finished, cancelled, panics *)
-Definition snap_of (s : state) : snapshot := (working s, waiting s, finished s, cancelled s, panics s).
+(* per gate: capacity, in the write path, queued; then finished, cancelled, panicked (totals) *)
+Definition snapshot := (list (nat * nat * nat) * nat * nat * nat)%type.
+Definition sum_of (f : state -> nat) (gs : mstate) : nat := fold_right (fun g acc => f (snd g) + acc) 0 gs.
+Definition snap_of (gs : mstate) : snapshot :=
+  (map (fun g => (fst g, working (snd g), waiting (snd g))) gs,
+   sum_of finished gs, sum_of cancelled gs, sum_of panics gs).
 
+Definition gsnap_eqb (a b : nat * nat * nat) : bool :=
+  match a, b with (a1, a2, a3), (b1, b2, b3) => Nat.eqb a1 b1 && Nat.eqb a2 b2 && Nat.eqb a3 b3 end.
 Definition snap_eqb (a b : snapshot) : bool :=
   match a, b with
-  | (a1, a2, a3, a4, a5), (b1, b2, b3, b4, b5) =>
-      Nat.eqb a1 b1 && Nat.eqb a2 b2 && Nat.eqb a3 b3 && Nat.eqb a4 b4 && Nat.eqb a5 b5
+  | (ga, fa, ca, pa), (gb, fb, cb, pb) =>
+      list_eqb gsnap_eqb ga gb && Nat.eqb fa fb && Nat.eqb ca cb && Nat.eqb pa pb
   end.
 
 (* model and implementation agree on the observable counts after every operation *)
-Fixpoint follows (dofs : ep -> bool) (max : nat) (s : state) (steps : list (op * snapshot)) : bool :=
+Fixpoint follows (dofs same : ep -> bool) (gs : mstate) (steps : list (op * snapshot)) : bool :=
   match steps with
   | [] => true
   | (o, obs) :: r =>
-      match exec_op dofs max s o with
-      | Some s' => snap_eqb (snap_of s') obs && follows dofs max s' r
+      match exec_op dofs same gs o with
+      | Some gs' => snap_eqb (snap_of gs') obs && follows dofs same gs' r
       | None => false
       end
   end.
@@ -175,12 +271,14 @@ Fixpoint follows (dofs : ep -> bool) (max : nat) (s : state) (steps : list (op *
 Inductive case := CGate (max : nat) (steps : list (op * snapshot)).
 
 Definition corr_ok (c : case) : bool :=
-  match c with CGate max steps => follows done_on_failed_start max init steps end.
+  match c with CGate max steps => follows done_on_failed_start same_gate (minit max) steps end.
 
-(* the property on the implementation's own observations: never more than max
-   requests inside the write path, never a panic *)
-Definition snap_ok (max : nat) (o : snapshot) : bool :=
-  match o with (w, _, _, _, p) => (w <=? max) && Nat.eqb p 0 end.
+(* the property on the implementation's own observations: on every single gate
+   never more requests inside the write path than its capacity, never a panic *)
+Definition snap_ok (o : snapshot) : bool :=
+  match o with
+  | (gs, _, _, p) => forallb (fun g => match g with (cap, w, _) => w <=? cap end) gs && Nat.eqb p 0
+  end.
 
 Definition pred_ok (c : case) : bool :=
-  match c with CGate max steps => forallb (fun st => snap_ok max (snd st)) steps end.
+  match c with CGate max steps => forallb (fun st => snap_ok (snd st)) steps end.
